@@ -122,6 +122,16 @@ func runC14(r *mon.Run) {
 		}
 		keepMsg := append([]byte{}, msg...)
 		rd := &fixedReader{data: append(append([]byte{}, aux...), rng.Bytes(40)...)}
+		if i%2 == 1 {
+			hl, hcheck := hostileLayout(msg, rng.Bytes(16))
+			s2, err2 := sk.Sign(&fixedReader{data: aux}, hl[0], nil)
+			if err2 != nil || !bytes.Equal(s2, want) {
+				w.Fail("c14/Sign:layout", fmt.Sprintf("Sign over a message slice with spare capacity = %x (err %v), BIP-340 Sign(d, aux, m) = %x", s2, err2, want), det...)
+			}
+			if m := hcheck(); m != "" {
+				w.Fail("c14/Sign:buffer", "Sign wrote to the message buffer or beyond it: "+m, det...)
+			}
+		}
 		sig, err := sk.Sign(rd, msg, nil)
 		if err != nil {
 			w.Fail("c14/Sign:err", err.Error(), det...)
